@@ -81,7 +81,13 @@ impl Display for ErrorEntry<'_> {
 
 impl LocatedError for ErrorEntry<'_> {
     fn span(&self) -> Span {
-        (self.location, 1)
+        // The span covers the character at the location of the error (and is empty at the end of
+        // the expression), so that it never splits a UTF-8 byte sequence nor exceeds the
+        // expression.
+        (
+            self.location,
+            self.fragment.chars().next().map_or(0, char::len_utf8),
+        )
     }
 }
 
